@@ -21,6 +21,8 @@ def run(ctx):
     shapes = Shapes(ctx.model)
     sr.sh1(ctx, shapes)
     sr.sh2(ctx, shapes)
+    sr.sh6(ctx, shapes)     # no text slot of a new URL ever receives None
+    sr.sh7(ctx, shapes)     # no possibly-None value is handed to a parameter declared str/int
     sr.sh3(ctx)
     sr.ex_rules(ctx, shapes)
     sr.ex3_acyclic(ctx, shapes)
